@@ -276,12 +276,8 @@ func vpC03Judge(out []byte, state string, reqs []vpC03Req, names []string, lenie
 	br := bufio.NewReader(rd)
 	pos := func() int { return len(out) - rd.Len() - br.Buffered() }
 	preds := make([]vpC03Pred, len(reqs))
-	firstMis := -1
 	for i, r := range reqs {
 		preds[i] = vpC03Predict(r)
-		if preds[i].MayMismatch && firstMis < 0 {
-			firstMis = i
-		}
 	}
 	failf := func(i int, format string, a ...any) vpC03Verdict {
 		v.Fail = fmt.Sprintf("response #%d (to %s): ", i, reqs[i].Method) + fmt.Sprintf(format, a...)
@@ -289,8 +285,26 @@ func vpC03Judge(out []byte, state string, reqs []vpC03Req, names []string, lenie
 	}
 	// the wire may end early only at or before a response whose stream does not match its declared size
 	// (the server aborts the connection, dropping whatever it had buffered), and only if it really closed
+	// (whether a potential mismatch is effective is only known from the wire - the compression wrapper turns
+	// any stream into an unknown-size one - so every potential mismatch at or after i counts)
 	tolerateCut := func(i int) bool {
-		return firstMis >= 0 && state == "closed" && (i == firstMis || (i < firstMis && lenientCut))
+		if state != "closed" {
+			return false
+		}
+		for k := i; k < len(preds); k++ {
+			if preds[k].MayMismatch && (k == i || lenientCut) {
+				return true
+			}
+		}
+		return false
+	}
+	laterMismatch := func(i int) bool {
+		for k := i + 1; k < len(preds); k++ {
+			if preds[k].MayMismatch {
+				return true
+			}
+		}
+		return false
 	}
 
 	for i, r := range reqs {
@@ -306,7 +320,8 @@ func vpC03Judge(out []byte, state string, reqs []vpC03Req, names []string, lenie
 		}
 		resp, err := http.ReadResponse(br, &http.Request{Method: r.Method})
 		if err != nil {
-			if vpC03EOFish(err) && tolerateCut(i) {
+			// a head without its terminating empty line at the very end of the output is a cut, whatever net/http calls it
+			if tolerateCut(i) && (vpC03EOFish(err) || !bytes.Contains(out[start:], []byte("\r\n\r\n"))) {
 				v.Truncated = true
 				return v
 			}
@@ -378,6 +393,11 @@ func vpC03Judge(out []byte, state string, reqs []vpC03Req, names []string, lenie
 		}
 
 		// ---- body
+		if vpC03EOFish(berr) && pos() == len(out) && laterMismatch(i) && lenientCut && state == "closed" {
+			// a later size-mismatched stream aborted the connection and the tail of this response was still buffered
+			v.Truncated = true
+			return v
+		}
 		chunked := len(resp.TransferEncoding) > 0
 		mismatch := ""
 		switch {
